@@ -23,6 +23,19 @@ func (f *FileReaderImpl) CollectPythonFiles(paths []string, recursive bool, incl
 
 	var files []string
 
+	// Overlapping or repeated targets must not select a file twice
+	seen := make(map[string]bool)
+	addFile := func(file string) {
+		key := file
+		if abs, err := filepath.Abs(file); err == nil {
+			key = abs
+		}
+		if !seen[key] {
+			seen[key] = true
+			files = append(files, file)
+		}
+	}
+
 	for _, path := range paths {
 		// Check if path exists
 		info, err := os.Stat(path)
@@ -36,12 +49,14 @@ func (f *FileReaderImpl) CollectPythonFiles(paths []string, recursive bool, incl
 			if err != nil {
 				return nil, err
 			}
-			files = append(files, dirFiles...)
+			for _, file := range dirFiles {
+				addFile(file)
+			}
 		} else {
 			// Process single file (patterns see it the way they see a file at the
 			// top of a walked directory: by its name)
 			if f.IsValidPythonFile(path) && f.shouldIncludeFile(filepath.Base(path), includePatterns, excludePatterns) {
-				files = append(files, path)
+				addFile(path)
 			}
 		}
 	}
